@@ -26,7 +26,8 @@ Theorem C03_finally_once_outcome_unchanged : forall ev d forms env (rest : M val
   with_finally ev d (Some forms) env rest st = (r, st2).
 Proof. exact with_finally_once. Qed.
 
-Theorem C03_no_finally : forall ev d env (rest : M val) st, with_finally ev d None env rest st = rest st.
+Theorem C03_no_finally : forall ev d env (rest : M val) st,
+  dbg (snd (rest st)) = None -> with_finally ev d None env rest st = rest st.
 Proof. exact with_finally_none. Qed.
 
 (** the handler gets exactly the error of the body; a body that does not fail skips it *)
